@@ -178,6 +178,15 @@ func checkC01(cx *Ctx, r *Report) {
 	cx.checkErrReply(r, "R-ERR", kCallback, cb)
 	cx.checkEmitExactlyOne(r, "R-EMIT", kCallback, cb)
 	cx.checkErrPropagation(r, "R-ERR", "provider.(*IdentityProvider).loginResponse", lr)
+	// every function loginResponse relies on hands its failures up (a swallowed signing or key error would
+	// let an unsigned / half-built Success response through)
+	for _, g := range w.sortedFuncs(lrScope) {
+		res := g.Signature.Results()
+		if g == lr || res.Len() == 0 || !isErrorType(res.At(res.Len()-1).Type()) {
+			continue
+		}
+		cx.checkErrPropagation(r, "R-ERR", w.FuncKey(g), g)
+	}
 
 	// every sendBackResponse in the callback sends a failed response or the result of loginResponse under err == nil
 	for _, c := range callsIn(cb) {
